@@ -163,6 +163,9 @@ Proof.
   apply key_eqb_eq in E. apply kid_of_inj in E. lia.
 Qed.
 
+Lemma flagged_side en sd : tchg (s_chg (gs en sd)) = true -> tstr (s_oid (gs en sd)) = true -> flagged en = true.
+Proof. unfold flagged. destruct sd; simpl; intros -> ->; [apply orb_true_r|reflexivity]. Qed.
+
 Lemma process_event_pres evl g w sd ev rest w' :
   InvP evl g w -> evl sd = ev :: rest -> process_event w sd ev = ROk w' -> InvP (evl_set evl sd rest) g w'.
 Proof.
@@ -222,6 +225,7 @@ Proof.
     + intros x xn Hne Hxn. exists xn. split; [rewrite A1, nth_list_upd_neq by congruence; exact Hxn|apply same_but_prio_refl].
     + intros x Hne. rewrite B1. destruct (Nat.eqb_spec x e); [contradiction|reflexivity].
     + intros _. rewrite B1, Nat.eqb_refl. reflexivity.
+    + intros _. apply (flagged_side en' sd); unfold en'; rewrite gs_ss_same; cbn [w_chg w_ex s_chg s_oid]; [unfold stamp; apply tchg_stamp|rewrite Ho; reflexivity].
     + rewrite C1. unfold stamp, s0. simpl. lia.
     + rewrite C1, D1. apply N.le_refl.
     + rewrite C1. unfold en'.
@@ -303,6 +307,7 @@ Proof.
       apply nth_error_Some. unfold s0. simpl. congruence.
     + intros x Hne. rewrite B1. destruct (Nat.eqb_spec x e); [contradiction|reflexivity].
     + intros _. rewrite B1, Nat.eqb_refl. reflexivity.
+    + intros _. apply (flagged_side en' sd); rewrite Hgs; unfold side'; cbn [w_chg w_ex w_oid s_chg s_oid]; [unfold stamp; apply tchg_stamp|reflexivity].
     + rewrite C1. unfold stamp, s0. simpl. lia.
     + rewrite C1, D1. apply N.le_refl.
     + rewrite C1. unfold maxchg, chgv. rewrite Hen'. destruct sd; simpl; lia.
